@@ -63,9 +63,12 @@ func Gen(p *hx.Prng, thorough bool, history bool) (Scenario, []int) {
 	}
 	bases := []int{10 * (1 + p.Intn(9))}
 	if p.Chance(1, 3) {
-		bases = append(bases, 10*(1+p.Intn(9)))
+		if b := 10 * (1 + p.Intn(9)); b != bases[0] {
+			bases = append(bases, b)
+		}
 	}
 	used := map[int]bool{}
+	room := func() bool { return len(used) < 9*len(bases)-1 }
 	fresh := func() int {
 		for {
 			k := bases[p.Intn(len(bases))] + 1 + p.Intn(9)
@@ -88,13 +91,16 @@ func Gen(p *hx.Prng, thorough bool, history bool) (Scenario, []int) {
 				own[w] = own[w][1:]
 				kind := []string{"rm", "upd", "upd", "get"}[p.Intn(4)]
 				ops = append(ops, Op{Kind: kind, Key: k, Val: 100*(w+1) + k})
-			} else if len(used) < 9*len(bases)-1 {
+			} else if room() {
 				k := fresh()
 				ops = append(ops, Op{Kind: "add", Key: k, Val: 100*(w+1) + k})
 			}
 		}
-		if len(ops) == 0 {
+		if len(ops) == 0 && room() {
 			ops = Adds(fresh())
+		}
+		if len(ops) == 0 {
+			ops = []Op{{Kind: "add", Key: 200 + w, Val: 200 + w}}
 		}
 		ws = append(ws, WriterSpec{Ops: OrderOps(ops)})
 	}
@@ -130,7 +136,7 @@ func Gen(p *hx.Prng, thorough bool, history bool) (Scenario, []int) {
 					for i := range dup {
 						dup[i].Val += 7000
 					}
-					if len(used) < 9*len(bases)-1 {
+					if room() {
 						k := fresh()
 						dup = append(dup, Op{Kind: "add", Key: k, Val: 7000 + k})
 					}
